@@ -23,6 +23,7 @@ EXPLANATION = (
     "probabilities are |amplitudes|^2; (D5) save/load key agreement and loader interface. "
     "(D2o) __setitem__ never replaces the amplitude container between the write and the rollback; (D2s) the saved old value is a copy (a slice of a numpy vector is a view); (D4c) the numeric-entry classifier is complete for symbol-free expressions (no is_Number-style atomic predicates); (D5o) no one-sided test on an imaginary part on the save path; (D6) the flip ordering is arange(2**n) viewed as n axes of extent 2 with every axis reversed and flattened again (exactly the bit-reversal permutation, an involution), and flip_amplitudes indexes the amplitudes by the ordering of their own length; (D7) the Dicke constructor drives the next-same-weight step from the smallest integer of the weight, keeps a value exactly while it fits in n bits, and stores 1/sqrt(number kept) at the kept indices of zeros(2**n)."
     ' Round 5: no cached_property on the mutable wavefunction; loaded arrays reach the constructor as stored (C11).'
+    ' Round 7: no function of wavefunction.py keeps module-level state, no query method stores on the receiver (D3).'
 )
 RULE_TEXT = "instances = CFG nodes of the constructor/__setitem__/bind, stores to the amplitude field anywhere in the package, branches of the normalisation check, record keys; distinct by (rule, construct)"
 ASSUMPTIONS = [
